@@ -426,6 +426,11 @@ func Eq(a, b *Term) *Term {
 	if a.IsConst() {
 		a, b = b, a
 	}
+	if a.S.K == KInt {
+		if r, ok := intCmpAsBV(OEq, a, b); ok {
+			return r
+		}
+	}
 	if a.Op == OIBitLen || a.Op == OITz {
 		if r, ok := lenEq(a, b); ok {
 			return r
@@ -1047,6 +1052,51 @@ nofold:
 		if isOne(b) {
 			return a
 		}
+		// floor((t +- c) / 2^k) == floor(t / 2^k) +- c/2^k when 2^k divides c
+		if k, ok := log2Const(b); ok && (a.Op == OIAdd || a.Op == OISub) && a.Args[1].IsConst() && int2bvCheap(a.Args[0]) &&
+			new(big.Int).Mod(a.Args[1].C, pow2(k)).Sign() == 0 {
+			return IntBin(a.Op, IntBin(OIDiv, a.Args[0], b), IntConst(new(big.Int).Div(a.Args[1].C, pow2(k))))
+		}
+		// floor division of a bit-vector's value by 2^k is a shift of the bit-vector
+		if k, ok := log2Const(b); ok {
+			if x, signed, okx := bvBacked(a); okx {
+				w := x.S.W
+				switch {
+				case signed && k < w:
+					return BV2IntSigned(Extract(x, w-1, k))
+				case signed:
+					return BV2IntSigned(Extract(x, w-1, w-1))
+				case k < w:
+					return BV2Nat(Extract(x, w-1, k))
+				default:
+					return IntI(0)
+				}
+			}
+		}
+	case OIMod:
+		// y mod 2^k is the unsigned value of y truncated to k bits
+		if k, ok := log2Const(b); ok && k > 0 && (a.Op == OIAdd || a.Op == OISub) && int2bvCheap(a) {
+			return BV2Nat(Int2BV(a, k))
+		}
+		// the value of a bit-vector modulo 2^k is the value of its low k bits
+		if k, ok := log2Const(b); ok && k > 0 {
+			if x, signed, okx := bvBacked(a); okx {
+				w := x.S.W
+				switch {
+				case k <= w:
+					return BV2Nat(Extract(x, k-1, 0))
+				case signed:
+					return BV2Nat(SExt(x, k))
+				default:
+					return a
+				}
+			}
+		}
+		// (x mod a) mod b == x mod b when b divides a (both positive constants)
+		if b.IsConst() && b.C.Sign() > 0 && a.Op == OIMod && a.Args[1].IsConst() && a.Args[1].C.Sign() > 0 &&
+			new(big.Int).Mod(a.Args[1].C, b.C).Sign() == 0 {
+			return IntBin(OIMod, a.Args[0], b)
+		}
 	}
 	return intern(&Term{Op: op, S: SInt, Args: []*Term{a, b}})
 }
@@ -1090,6 +1140,17 @@ func mkBits(n *Term, lo, width int) *Term {
 		x = IntBin(OIDiv, n, IntConst(pow2(lo)))
 	}
 	return IntBin(OIMod, x, IntConst(pow2(width)))
+}
+
+// log2Const: b is the constant 2^k.
+func log2Const(b *Term) (int, bool) {
+	if !b.IsConst() || b.C.Sign() <= 0 {
+		return 0, false
+	}
+	if new(big.Int).And(b.C, new(big.Int).Sub(b.C, bigOne)).Sign() != 0 {
+		return 0, false
+	}
+	return b.C.BitLen() - 1, true
 }
 
 func foldPositional(hi, lo *Term) *Term {
@@ -1141,12 +1202,105 @@ func IAbs(a *Term) *Term {
 	return Ite(ILt(a, IntI(0)), INeg(a), a)
 }
 
+// bvBacked returns the bit-vector an integer term is the (signed or unsigned) value of.
+func bvBacked(t *Term) (bv *Term, signed bool, ok bool) {
+	if t.Op == OBV2Nat {
+		return t.Args[0], false, true
+	}
+	if b, found := signedOf.Load(t.ID); found {
+		return b.(*Term), true, true
+	}
+	return nil, false, false
+}
+
+// intCmpAsBV rewrites a comparison between the integer value of a bit-vector and an integer
+// constant (or the value of another bit-vector of the same width and signedness) into a
+// bit-vector comparison. op is OILt, OILe or OEq; ok=false when the rewrite does not apply.
+func intCmpAsBV(op Op, a, b *Term) (*Term, bool) {
+	// (t +- k) cmp c  ==>  t cmp (c -+ k)
+	shift := func(t *Term) (*Term, *big.Int) {
+		if t.Op == OISub && t.Args[1].IsConst() {
+			return t.Args[0], t.Args[1].C
+		}
+		if t.Op == OIAdd && t.Args[1].IsConst() {
+			return t.Args[0], new(big.Int).Neg(t.Args[1].C)
+		}
+		if t.Op == OIAdd && t.Args[0].IsConst() {
+			return t.Args[1], new(big.Int).Neg(t.Args[0].C)
+		}
+		return nil, nil
+	}
+	if b.IsConst() {
+		if t, k := shift(a); t != nil {
+			if _, _, ok := bvBacked(t); ok {
+				return intCmpAsBV(op, t, IntConst(new(big.Int).Add(b.C, k)))
+			}
+		}
+	}
+	if a.IsConst() {
+		if t, k := shift(b); t != nil {
+			if _, _, ok := bvBacked(t); ok {
+				return intCmpAsBV(op, IntConst(new(big.Int).Add(a.C, k)), t)
+			}
+		}
+	}
+	xa, sa, oka := bvBacked(a)
+	xb, sb, okb := bvBacked(b)
+	cmp := func(x, y *Term, signed bool) *Term {
+		switch op {
+		case OILt:
+			if signed {
+				return BvCmp(OBvSLt, x, y)
+			}
+			return BvCmp(OBvULt, x, y)
+		case OILe:
+			if signed {
+				return BvCmp(OBvSLe, x, y)
+			}
+			return BvCmp(OBvULe, x, y)
+		}
+		return Eq(x, y)
+	}
+	rng := func(w int, signed bool) (lo, hi *big.Int) {
+		if signed {
+			return new(big.Int).Neg(pow2(w - 1)), new(big.Int).Sub(pow2(w-1), bigOne)
+		}
+		return new(big.Int), new(big.Int).Sub(pow2(w), bigOne)
+	}
+	switch {
+	case oka && okb && sa == sb && xa.S.W == xb.S.W:
+		return cmp(xa, xb, sa), true
+	case oka && b.IsConst():
+		lo, hi := rng(xa.S.W, sa)
+		if b.C.Cmp(lo) < 0 { // value >= lo > c
+			return TFalse, true
+		}
+		if b.C.Cmp(hi) > 0 { // value <= hi < c
+			return BoolConst(op != OEq), true
+		}
+		return cmp(xa, BVConst(b.C, xa.S.W), sa), true
+	case okb && a.IsConst():
+		lo, hi := rng(xb.S.W, sb)
+		if a.C.Cmp(lo) < 0 { // c < lo <= value
+			return BoolConst(op != OEq), true
+		}
+		if a.C.Cmp(hi) > 0 {
+			return TFalse, true
+		}
+		return cmp(BVConst(a.C, xb.S.W), xb, sb), true
+	}
+	return nil, false
+}
+
 func ILt(a, b *Term) *Term {
 	if a.IsConst() && b.IsConst() {
 		return BoolConst(a.C.Cmp(b.C) < 0)
 	}
 	if a == b {
 		return TFalse
+	}
+	if r, ok := intCmpAsBV(OILt, a, b); ok {
+		return r
 	}
 	return intern(&Term{Op: OILt, S: SBool, Args: []*Term{a, b}})
 }
@@ -1156,6 +1310,9 @@ func ILe(a, b *Term) *Term {
 	}
 	if a == b {
 		return TTrue
+	}
+	if r, ok := intCmpAsBV(OILe, a, b); ok {
+		return r
 	}
 	return intern(&Term{Op: OILe, S: SBool, Args: []*Term{a, b}})
 }
@@ -1181,7 +1338,32 @@ func Int2BV(a *Term, w int) *Term {
 	if a.Op == OBV2Nat && a.Args[0].S.W < w {
 		return ZExt(a.Args[0], w)
 	}
+	if a.Op == OBV2Nat && a.Args[0].S.W > w {
+		return Extract(a.Args[0], w-1, 0)
+	}
+	// truncation is a ring homomorphism: distribute over +/- when that reaches bit-vectors
+	if (a.Op == OIAdd || a.Op == OISub) && (int2bvCheap(a.Args[0]) && int2bvCheap(a.Args[1])) {
+		op := OBvAdd
+		if a.Op == OISub {
+			op = OBvSub
+		}
+		return BvBin(op, Int2BV(a.Args[0], w), Int2BV(a.Args[1], w))
+	}
 	return intern(&Term{Op: OInt2BV, S: SBV(w), Args: []*Term{a}, A: w})
+}
+
+// int2bvCheap: truncating this integer term yields a bit-vector term without an int2bv node.
+func int2bvCheap(t *Term) bool {
+	if t.IsConst() {
+		return true
+	}
+	if _, _, ok := bvBacked(t); ok {
+		return true
+	}
+	if t.Op == OIAdd || t.Op == OISub {
+		return int2bvCheap(t.Args[0]) && int2bvCheap(t.Args[1])
+	}
+	return false
 }
 
 // BV2Nat: unsigned value of bit-vector as Int.
